@@ -433,7 +433,8 @@ decreasing_by
     | (have := spanB_len (· == 96) rest; omega)
     | (cases rest <;> simp <;> omega)
 
-/-- the `for` loop of findClosureReader (reader.go:594-656): (ret, closed) -/
+/-- the `for` loop of findClosureReader (reader.go:594-656): (ret, closed). `i` indexes the peeked line, which starts
+    with `seg.padding` virtual spaces: the stop of the closing segment is `Start + i - Padding` (repair 9e57c92) -/
 def findClosureLoop (o : Ops σ) (opener closer : UInt8) (opts : FindClosureOptions) :
     Nat → Nat → Nat → Option (List Segment) → σ → Except Panic ((Option (List Segment) × Bool) × σ)
   | 0, _, _, _, _ => .error .loop
@@ -444,7 +445,7 @@ def findClosureLoop (o : Ops σ) (opener closer : UInt8) (opts : FindClosureOpti
     | some bs =>
       match scanLine opener closer opts.codeSpan opts.nesting bs 0 opened cso with
       | .found i => do
-        let ret := (ret.getD []) ++ [seg.withStop (seg.start + i)]
+        let ret := (ret.getD []) ++ [seg.withStop (seg.start + i - seg.padding)]
         let s ← o.advance (i + 1) s
         pure ((some ret, true), s)
       | .stop => pure ((ret, false), s)
